@@ -116,3 +116,15 @@ class CustomState:
 
 
 Point = collections.namedtuple("Point", "x y")
+
+
+class Noted:
+    """Unpickling an instance calls vp_sink.note(i): an observable effect of the *original* pickle."""
+
+    def __init__(self, i):
+        self.i = i
+
+    def __reduce__(self):
+        import vp_sink
+
+        return (vp_sink.note, (self.i,))
